@@ -147,4 +147,9 @@ theorem C16_lexed (cfg : SlyLex.Cfg) (s : List Nat) (segs : List SlyLex.Seg) (h 
   intro toks
   exact C16 toks (lexInv_infix _ _ i k (lexed_LexInv cfg _ s segs h))
 
+-- [review] `chars` is total through `Char.ofNat`: a lone surrogate (a legal element of a Python `str`, and of the texts the
+-- lexer theorems range over) and every number ≥ 0x110000 become NUL.  The theorems of this file therefore speak about the
+-- text with its surrogates REPLACED BY NUL; newline counting and lengths are not affected (10 ↦ '\n' only), values are.
+example : chars [55296, 97] = chars [0, 97] := by decide
+
 end MindsVerif.Props.C16Lex
